@@ -285,7 +285,9 @@ def _eval_model(model, t):
     if z3.is_int_value(v):
         return v.as_long()
     if z3.is_rational_value(v):
-        return float(v.numerator_as_long()) / float(v.denominator_as_long())
+        from fractions import Fraction
+
+        return float(Fraction(v.numerator_as_long(), v.denominator_as_long()))
     if z3.is_algebraic_value(v):
         return float(v.approx(20).as_fraction())
     if z3.is_true(v):
